@@ -1,22 +1,31 @@
 (* C01 driver: scenario and observation grammar in harness/C01.cpp *)
-let stmt c = match next c with
+let base c = match next c with
   | ":n" -> SNop | ":c" -> SCheck
   | ":x" -> let f = n_tok (next c) in let l = n_tok (next c) in SFailX (f, l)
   | ":j" -> let f = n_tok (next c) in let l = n_tok (next c) in SFailC (f, l)
   | ":s" -> SThrowStd | ":o" -> SThrowOther
   | t -> raise (Bad ("stmt " ^ t))
+let cond c =
+  let k = next c in let n = n_tok (next c) in
+  match k with ":eq" -> REq n | ":ne" -> RNe n | ":lt" -> RLt n | ":ge" -> RGe n | t -> raise (Bad ("cond " ^ t))
+let stmt c = match peek c with
+  | Some ":r" -> ignore (next c); let cd = cond c in let a = base c in let b = base c in RIf (cd, a, b)
+  | _ -> RS (base c)
+let pline c = match peek c with
+  | Some ":r" -> ignore (next c); let cd = cond c in let l = n_tok (next c) in RLIf (cd, l)
+  | _ -> RL (n_tok (next c))
 let test c =
   let ign = bool_tok (next c) in let sel = bool_tok (next c) in let line = n_tok (next c) in
   let su = counted c stmt in let bo = counted c stmt in let td = counted c stmt in
-  let pre = counted c (fun c -> n_tok (next c)) in let post = counted c (fun c -> n_tok (next c)) in
-  { t_ignored = ign; t_sel = sel; t_line = line; t_setup = su; t_body = bo; t_teardown = td; t_pre = pre; t_post = post }
+  let pre = counted c pline in let post = counted c pline in
+  { rt_ignored = ign; rt_sel = sel; rt_line = line; rt_setup = su; rt_body = bo; rt_teardown = td; rt_pre = pre; rt_post = post }
 let scenario ts =
   let c = { rest = ts } in
   let cli = bool_tok (next c) in let rethrow = bool_tok (next c) in let filter = bool_tok (next c) in
   let runign = bool_tok (next c) in let repeat = n_tok (next c) in
   let tests = counted c test in
   { s_cfg = { c_cli = cli; c_rethrow = rethrow; c_filter = filter; c_runign = runign; c_repeat = repeat }; s_tests = tests }
-let has_throws scn = List.exists (fun t -> List.exists (fun x -> x = SThrowStd || x = SThrowOther) (t.t_setup @ t.t_body @ t.t_teardown)) scn.s_tests
+let has_throws scn = List.exists rhas_throw scn.s_tests
 let prep r =
   let ev = List.concat_map (fun e -> [pn e.e_test; pn e.e_phase; pn e.e_idx; pz e.e_depth]) r.r_events in
   let fl = List.concat_map (fun f -> [pn f.f_test; pn f.f_file; pn f.f_line; pn f.f_kind]) r.r_fails in
